@@ -296,6 +296,26 @@ def run_echo(c):
     seen_seq = set()
     for si, stp in enumerate(c["steps"]):
         kind = stp[0]
+        if kind == "restart":
+            # clean stop and restart of the server process: the window goes through persist() / JSON /
+            # initialize_from_persisted() exactly as FilesystemSecurityContext._destroy and ._load pass it on, and the
+            # new process issues Echo values of its own.  A window that was not initialised stays so; an
+            # initialised one still knows every number it accepted.
+            import hashlib
+            import json
+
+            try:
+                p = json.loads(json.dumps(server.recipient_replay_window.persist()))
+                w2 = oscore.ReplayWindow(32, lambda: None)
+                w2.initialize_from_persisted(p)
+            except Exception as e:
+                vio.append(V("C12/window-persist-raises/" + exc_key(e), repr(e)))
+                break
+            server.recipient_replay_window = w2
+            fresh = hashlib.sha256(fresh).digest()[:8]
+            server.echo_recovery = fresh
+            labels.add("restart-" + ("initialised" if initialized_by is not None else "uninitialised"))
+            continue
         if kind == "replay":
             # any datagram sent so far may be replayed: those captured before recovery, the Echo-carrying request that
             # achieved it, and everything accepted afterwards
@@ -372,7 +392,7 @@ def run_echo(c):
 
 @st.composite
 def _echo_case(draw):
-    steps = draw(st.lists(st.one_of(st.just(["plain"]), st.just(["plain"]), st.just(["with-echo"]), st.just(["with-echo"]), st.tuples(st.just("wrong-echo"), st.binary(min_size=1, max_size=8)).map(list), st.tuples(st.just("replay"), st.integers(0, 9)).map(list)), min_size=1, max_size=14))
+    steps = draw(st.lists(st.one_of(st.just(["plain"]), st.just(["plain"]), st.just(["with-echo"]), st.just(["with-echo"]), st.tuples(st.just("wrong-echo"), st.binary(min_size=1, max_size=8)).map(list), st.tuples(st.just("replay"), st.integers(0, 9)).map(list), st.just(["restart"])), min_size=1, max_size=14))
     return {"start": draw(st.sampled_from([0, 7, 300])), "echo": draw(st.binary(min_size=8, max_size=8)), "steps": steps}
 
 
@@ -405,7 +425,7 @@ RULE = (
     "wire: a sender context protects 1-40 requests (sequence gaps 0,1,2,40,100; start 0..2^32-3) and they arrive in a generated order with repeats (up to 120 arrivals) at a receiver with window 1/2/8/32/64, "
     "interleaved with forgeries (bit-flipped copies, old ciphertext under another or a still unused higher partial IV): an authentic number is accepted at most once, never once it fell below the window, always "
     "when above everything accepted; forgeries are never accepted; and the accept/reject sequence of the authentic arrivals is identical with and without the forgeries (metamorphic). echo: a receiver whose window is "
-    "uninitialised (Echo recovery value generated) sees plain requests, requests echoing the challenge, requests with a wrong Echo value and replays of captured requests: nothing is accepted before a request carries "
+    "uninitialised (Echo recovery value generated) sees plain requests, requests echoing the challenge, requests with a wrong Echo value, replays of captured requests and clean restarts of the receiving process (window through persist()/JSON/initialize_from_persisted(), new Echo value; an uninitialised window must stay uninitialised, an initialised one keeps rejecting what it accepted): nothing is accepted before a request carries "
     "the freshly issued value, the 4.01 challenge decrypts at the client and carries it, and afterwards captured requests stay rejected, as does a replay of the Echo-carrying request itself and of everything accepted since. Non-trivial = a jump or >= 2 in-window probes (window); reordered or repeated "
     "arrivals (wire); recovery followed by a replay of a captured request (echo). Distinct = SHA-1 of the case."
 )
